@@ -35,6 +35,15 @@ type trace struct {
 	written map[string][]any
 	read    map[string][]any
 	fails   []string
+	over    bool // the watchdog has fired or an operation has failed: failures from here on are consequences
+	onFail  func() // tears the session down after the first failure, so that the other side does not wait for the watchdog
+}
+
+// watchdog marks the moment the harness starts tearing the session down.
+func (t *trace) watchdog() {
+	t.mu.Lock()
+	t.over = true
+	t.mu.Unlock()
 }
 
 func newTrace() *trace { return &trace{written: map[string][]any{}, read: map[string][]any{}} }
@@ -51,8 +60,16 @@ func (t *trace) r(key string, o any) {
 }
 func (t *trace) fail(format string, a ...any) {
 	t.mu.Lock()
-	t.fails = append(t.fails, fmt.Sprintf(format, a...))
+	var cb func()
+	if !t.over {
+		t.fails = append(t.fails, fmt.Sprintf(format, a...))
+		t.over = true
+		cb = t.onFail
+	}
 	t.mu.Unlock()
+	if cb != nil {
+		cb()
+	}
 }
 
 // check is the trace checker: per stream and direction everything written is
@@ -75,13 +92,18 @@ func (t *trace) check(b *harness.B, transport, link, frag string, watchdogFired 
 	wit := func(k string, i int) map[string]any {
 		return map[string]any{"transport": transport, "link": link, "fragmentation": frag, "stream": k, "index": i, "written": len(t.written[k]), "read": len(t.read[k]), "errors": t.fails}
 	}
-	if watchdogFired {
+	if watchdogFired && len(t.fails) == 0 {
 		b.Inconclusive(fmt.Sprintf("watchdog fired during %s session over %s (%s)", transport, link, frag))
 		return
 	}
+	// an operation that failed BEFORE the watchdog fired is an observation (the side that saw it stops, the other side
+	// then blocks until the watchdog tears the session down); what was lost afterwards is not judged
 	for _, f := range t.fails {
 		b.Violate("C19/transport/"+transport+"/operation-failed", f, map[string]any{"transport": transport, "link": link, "fragmentation": frag, "errors": t.fails})
 		break
+	}
+	if watchdogFired {
+		return
 	}
 	for _, k := range ks {
 		w, r := t.written[k], t.read[k]
@@ -294,7 +316,7 @@ func runGatewaySession(b *harness.B, g G, tcp bool, fc fragClass, nStreams, nRPC
 	tr := newTrace()
 	var fired sync.Once
 	wdFired := false
-	wd := time.AfterFunc(watchdog, func() { fired.Do(func() { wdFired = true }); sess.d.Close(); sess.a.Close() })
+	wd := time.AfterFunc(watchdog, func() { fired.Do(func() { wdFired = true; tr.watchdog() }); sess.d.Close(); sess.a.Close() })
 	seedA, seedB := g.u64(), g.u64()
 	var wg sync.WaitGroup
 	// server: accept nStreams streams
@@ -548,7 +570,7 @@ func runRHP3Session(b *harness.B, g G, tcp bool, fc fragClass, nStreams, nMsg, m
 	tr := newTrace()
 	wdFired := false
 	var once sync.Once
-	wd := time.AfterFunc(watchdog, func() { once.Do(func() { wdFired = true }); rt.Close(); ht.Close() })
+	wd := time.AfterFunc(watchdog, func() { once.Do(func() { wdFired = true; tr.watchdog() }); rt.Close(); ht.Close() })
 	schedSeed, contentSeed := g.u64(), g.u64()
 	limit := uint64(maxPayload + 4096)
 
@@ -916,6 +938,7 @@ func runRHP2Session(b *harness.B, g G, tcp bool, fc fragClass, nRounds, maxPaylo
 	}
 	kinds := r2kinds()
 	tr := newTrace()
+	tr.onFail = func() { rt.ForceClose(); ht.ForceClose() }
 	schedSeed, contentSeed := g.u64(), g.u64()
 	limit := uint64(maxPayload + 8192)
 	// accessor poller: exercises the mutex/atomic accessors concurrently with I/O
@@ -1101,6 +1124,7 @@ func runRHP2Session(b *harness.B, g G, tcp bool, fc fragClass, nRounds, maxPaylo
 	case <-done:
 	case <-time.After(watchdog):
 		wdFired = true
+		tr.watchdog()
 		rt.ForceClose()
 		ht.ForceClose()
 		<-done
